@@ -153,6 +153,16 @@ func (cs ClientState) UpgradeState(
 	store sdk.KVStore,
 	state exported.ConsensusState,
 ) error {
+	if _, ok := state.(*ConsensusState); !ok {
+		return sdkerrors.Wrapf(
+			clienttypes.ErrInvalidConsensus,
+			"invalid upgraded consensus state. expected type: %T, got: %T",
+			&ConsensusState{}, state,
+		)
+	}
+	// the upgraded consensus state is processed now: without this metadata no proof at the new
+	// latest height could ever pass the delay-period check
+	setConsensusMetadata(ctx, store, cs.GetLatestHeight())
 	return nil
 }
 
